@@ -358,6 +358,13 @@ func Run(t *testing.T, s *Scenario, ch *explore.Chooser, after func(h *Hist)) {
 		}()
 		h.T0 = time.Now()
 		h.W.D = h
+		h.W.DescribeOmit = func(asg string) bool {
+			if h.scanActive && !h.inBuild && h.SlotFlags["describe-omits:"+asg] {
+				h.Trace = append(h.Trace, "  asg.describe answers without "+asg)
+				return true
+			}
+			return false
+		}
 		for _, g := range s.Groups {
 			h.W.Groups = append(h.W.Groups, g.Opts.Name)
 			h.W.GroupASG[g.Opts.Name] = g.Opts.CloudProviderGroupName
